@@ -39,9 +39,17 @@ fn output_size(
             }
 
             // Rounding up can produce a final window which starts beyond the
-            // end of the input. Exclude those positions.
-            let max_size = (in_size + pad_start - one.clone()) / stride.clone() + one.clone();
-            (windowed_in_size.div_ceil(&stride) + one).min(&max_size)
+            // end of the input (including its start padding). The operators
+            // drop that window, but never more than one (like the ONNX
+            // reference implementation), so the size is `steps + 1` if window
+            // `steps` starts inside the input and `steps` otherwise.
+            //
+            // `max_size` is the number of windows which start inside the input.
+            // It is written as a ceiling division so that an empty input does
+            // not produce a negative numerator.
+            let steps = windowed_in_size.div_ceil(&stride);
+            let max_size = (in_size + pad_start).div_ceil(&stride);
+            (steps.clone() + one).min(&max_size.max(&steps))
         }
         DimPadding::Same => in_size.div_ceil(&stride),
     }
